@@ -3,7 +3,7 @@ package soy
 import "strings"
 
 var c06Globals = []string{"1", "-1", "'s'", "1.5", "true", "null", "1 + 2", "$x", "$x.y", "1 % 0", "length(1)", "f(", "'a' < 1", "[1, 2]", "UNDEF", "not 1", "1 2 3", "", "-'a'",
-	"'\\u12'", "'ab\\u123'", "'\\u00e9'", "'\\", "['a': 1", "0x", "1e", "$x[", "f(1,", "'\\q'"}
+	"'\\u12'", "'ab\\u123'", "'\\u00e9'", "'\\", "['a': 1", "0x", "1e", "$x[", "f(1,", "'\\q'", "[1, $x]", "[1, UNDEF]", "['a': UNDEF]"}
 
 // H_globals: ParseGlobals on "name = <expr>" for valid, erroring and malformed expressions:
 // returns a map or an error, never panics.
@@ -38,5 +38,28 @@ func H_globalsSym(ctx, k int) {
 	verifObserve("in", in)
 	m, err := ParseGlobals(strings.NewReader(in))
 	verifAssert((m == nil) == (err != nil), "C06: ParseGlobals result is neither (map, nil) nor (nil, err)")
+	verifAssert(verifLiveGoroutines() == 0, "C18: ParseGlobals left a scanner goroutine behind")
+}
+
+var c06Second = []string{"1", "g", "g + 1", "UNDEF", "[g, 2]", "'\\"}
+
+// H_globalsSeq: a file of several definitions that depend on one another: the first name is
+// defined from expression e1 (valid, undefined, erroring or malformed), a second definition
+// (expression e2, which may refer to the first) either redefines the same name or defines another
+// one, and a third line follows. A map or an error, never a panic, no goroutine left.
+func H_globalsSeq(e1, e2 int, same bool) {
+	name2 := "h"
+	if same {
+		name2 = "g"
+	}
+	in := "g = " + c06Globals[e1] + "\n" + name2 + " = " + c06Second[e2] + "\nk = g\n"
+	verifObserve("in", in)
+	m, err := ParseGlobals(strings.NewReader(in))
+	verifAssert((m == nil) == (err != nil), "C06: ParseGlobals result is neither (map, nil) nor (nil, err)")
+	if err != nil {
+		verifObserve("res", "error")
+	} else {
+		verifObserve("res", "ok")
+	}
 	verifAssert(verifLiveGoroutines() == 0, "C18: ParseGlobals left a scanner goroutine behind")
 }
